@@ -3,6 +3,7 @@ package actionlint
 import (
 	"fmt"
 	"sort"
+	"strconv"
 	"strings"
 )
 
@@ -264,7 +265,11 @@ func (ty *ObjectType) String() string {
 		} else {
 			b.WriteString("; ")
 		}
-		b.WriteString(p)
+		if strings.ContainsAny(p, "\r\n") {
+			b.WriteString(strconv.Quote(p)) // property names come from user input (matrix keys, input names, IDs)
+		} else {
+			b.WriteString(p)
+		}
 		b.WriteString(": ")
 		b.WriteString(ty.Props[p].String())
 	}
